@@ -9,6 +9,7 @@ mod props_paths;
 mod props_api;
 mod props_bounds;
 mod props_prm;
+mod props_py;
 mod props_repro;
 mod entropy;
 mod props_space;
@@ -54,6 +55,8 @@ fn main() {
                 "C14" => props_uniform::run(tier),
                 "C07" => props_repro::run(tier),
                 "C06" => props_time::run(tier),
+                "C19" => props_py::run_c19(tier),
+                "C20" => props_py::run_c20(tier),
                 "C08" => props_api::run("C08", tier),
                 _ => usage(),
             }
